@@ -54,7 +54,7 @@ func genC13(repo string) (string, error) {
 
 	// skeletons: where the validation, the storage writes and the in-memory commit sit
 	opt := goast.SkelOpt{Calls: set("adjust", "buildRuleList", "trim", "savePatch", "commit", "beginPatch", "tryCommitPatch",
-		"adjustRule", "checkGroupID", "newRuleConfig", "setRule", "deleteRule", "setGroup", "deleteGroup", "iterateRules",
+		"adjustRule", "adjustRuleContent", "checkGroupID", "newRuleConfig", "setRule", "deleteRule", "setGroup", "deleteGroup", "iterateRules",
 		"SaveRule", "DeleteRule", "SaveRuleGroup", "DeleteRuleGroup", "LoadRules", "LoadRuleGroups", "isDefault",
 		"loadRules", "loadGroups"),
 		Assigns: set("ruleList", "initialized", "rules", "groups", "keyType", "ruleConfig"), Conds: true}
@@ -97,6 +97,8 @@ func genC13(repo string) (string, error) {
 		{cf, "ruleConfigPatch", "setGroup"}, {cf, "ruleConfigPatch", "deleteGroup"}, {cf, "ruleConfigPatch", "iterateRules"},
 		{cf, "ruleConfigPatch", "adjust"}, {cf, "ruleConfigPatch", "trim"}, {cf, "ruleConfigPatch", "commit"},
 		{cf, "", "jsonEquals"},
+		// clients go through adjustRule (stores are checked), loadRules calls adjustRuleContent(..., false)
+		{rm, "RuleManager", "adjustRule"}, {rm, "RuleManager", "loadRules"},
 		{rm, "RuleManager", "GetAllRules"}, {rm, "RuleManager", "GetRuleGroups"}, {rm, "RuleManager", "GetRulesByKey"},
 		{rm, "RuleManager", "GetRulesForApplyRegion"}, {rm, "RuleManager", "GetSplitKeys"},
 	} {
@@ -225,9 +227,13 @@ func genC13(repo string) (string, error) {
 
 // c13AdjustChecks lists, in source order, the conditions of adjustRule that reject a rule: every `if cond { return errs... }`.
 func c13AdjustChecks(rm *goast.File) ([]string, error) {
-	adj, err := rm.Func("RuleManager", "adjustRule")
+	// the checks live in adjustRuleContent since fix f88d4e2 (adjustRule = adjustRuleContent(..., matchStores = true))
+	adj, err := rm.Func("RuleManager", "adjustRuleContent")
 	if err != nil {
-		return nil, err
+		adj, err = rm.Func("RuleManager", "adjustRule")
+		if err != nil {
+			return nil, err
+		}
 	}
 	c12Normalize(adj)
 	var checks []string
